@@ -54,7 +54,7 @@ func newVFSched(w *vfWorld, points []string, probePoints []string) *vfSched {
 	for _, p := range probePoints {
 		s.probePts[p] = true
 	}
-	verifPointFn = s.point
+	vfCurSched.Store(s)
 	w.sched = s
 	return s
 }
@@ -77,7 +77,7 @@ func (s *vfSched) logLocked(actor, kind, point string) int {
 	return ev.Seq
 }
 
-// point is installed as verifPointFn.
+// point is reached from the verifPoint hooks through the process-wide dispatcher.
 func (s *vfSched) point(name string, args ...any) {
 	gid := vfGoID()
 	s.mu.Lock()
